@@ -61,6 +61,15 @@ Definition merge_frames (l : list row) : list row :=
   flat_map (fun d => drop_repeats (filter (on_date d) g)) (sort_uniq (map rd g)).
 Definition bi_merge (old new : list row) : list row :=
   match old with [] => new | _ => merge_frames (old ++ new) end.
+(* bi_merge(old, [new1; new2; ...]): one call with several new frames (old = [] stands for None) *)
+Definition bi_merge_list (old : list row) (news : list (list row)) : list row :=
+  match (match old with [] => [] | _ => [old] end) ++ news with
+  | [] => []
+  | [f] => f
+  | fs => merge_frames (concat fs)
+  end.
+Definition store_of_groups (gs : list (list version)) : list row :=
+  fold_left (fun st g => bi_merge_list st (map Bi g)) gs [].
 Definition store_of (h : list version) : list row := fold_left (fun st v => bi_merge st (Bi v)) h [].
 
 (* ---- bi_read(df, asof, what:int): filter updated <= asof, stable sort by stamp, group by
